@@ -72,6 +72,71 @@ func c03Globals(p *Prog, r *Report, s *ssaProg) {
 		}
 	}
 	r.Ob("scanned", "-", nglob > 0, fmt.Sprintf("%d package-level variables, %d functions scanned, %d run-time writes", nglob, len(s.fns), found))
+	// a package-level map, slice or pointer is a reference: handed to a struct field, a return value, an interface or a
+	// callee it becomes reachable from per-run objects, and a store through that alias (a decoder filling a
+	// configuration, say) changes the table for every other run.  Outside initialisation the loaded value of such a
+	// variable may only be looked up, ranged over, indexed, measured or compared.
+	nref, nesc := 0, 0
+	for _, fn := range s.fns {
+		if fn.Name() == "init" && fn.Parent() == nil {
+			continue
+		}
+		for _, b := range fn.Blocks {
+			for _, in := range b.Instrs {
+				ld, ok := in.(*ssa.UnOp)
+				if !ok || ld.Op != token.MUL {
+					continue
+				}
+				g, ok := ld.X.(*ssa.Global)
+				if !ok || g.Pkg == nil || !s.pkgs[g.Pkg] {
+					continue
+				}
+				switch ld.Type().Underlying().(type) {
+				case *types.Map, *types.Slice, *types.Pointer, *types.Chan:
+				default:
+					continue
+				}
+				nref++
+				if ld.Referrers() == nil {
+					continue
+				}
+				for _, u := range *ld.Referrers() {
+					okUse := false
+					switch t := u.(type) {
+					case *ssa.Lookup:
+						okUse = t.X == ld
+					case *ssa.Range, *ssa.DebugRef:
+						okUse = true
+					case *ssa.Index:
+						okUse = t.X == ld
+					case *ssa.IndexAddr:
+						// element address: reads only
+						okUse = t.X == ld
+						if t.Referrers() != nil {
+							for _, uu := range *t.Referrers() {
+								if st, isSt := uu.(*ssa.Store); isSt && st.Addr == t {
+									okUse = false // element store: reported by the write rule above as well
+								}
+							}
+						}
+					case *ssa.BinOp:
+						okUse = t.Op == token.EQL || t.Op == token.NEQ
+					case *ssa.Call:
+						if bi, isB := t.Call.Value.(*ssa.Builtin); isB && (bi.Name() == "len" || bi.Name() == "cap") {
+							okUse = true
+						}
+					case *ssa.MapUpdate:
+						okUse = false
+					}
+					if !okUse {
+						nesc++
+						r.Ob(fmt.Sprintf("alias:%s.%s→%s", fnPkgName(fn), fn.Name(), g.Name()), instrPos(p, u), false, fmt.Sprintf("the package-level %s %s is handed on (%T): from there it is reachable from per-run objects, and a store through that alias changes it for every concurrent and later run", ld.Type().String(), g.Name(), u))
+					}
+				}
+			}
+		}
+	}
+	r.Ob("alias:scanned", "-", nref > 0 && nesc == 0, fmt.Sprintf("%d run-time loads of package-level maps, slices and pointers; all are only looked up, ranged over, indexed, measured or compared", nref))
 }
 
 // ---------------------------------------------------------------- R2 lock discipline
